@@ -82,7 +82,9 @@ LoadP(st) ==
           /\ fL' = UNION {{[h |-> h, i |-> i, v |-> st.fL[h][i]] : i \in 1..Len(st.fL[h])} : h \in Node}
 
 \* ---- graph helpers over the scenario
-Succ(s, h) == IF s.mode[h] = "shortcut" THEN {} ELSE (s.single[h] \cup s.slice[h]) \ {h}
+\* (an Init() that looks a component up by name - sc.ilook - reaches it like a dependency, when Init is reached at all)
+Succ(s, h) == IF s.mode[h] = "shortcut" THEN {}
+              ELSE ((s.single[h] \cup s.slice[h]) \ {h}) \cup (IF s.mode[h] = "normal" /\ s.ilook[h] \notin {0, h} THEN {s.ilook[h]} ELSE {})
 Reached(md) == CASE md = "normal" -> Callbacks [] md = "beforeNil" -> {"resolve", "before"} [] md = "shortcut" -> {"after"}
 RECURSIVE ReachSet(_, _, _)
 ReachSet(s, frontier, seenSet) ==
@@ -183,6 +185,9 @@ Started == run = "ok" /\ inCr = {} /\ ~failedEver
 M_C01_Identity ==
   Started => /\ \A f \in fS : L1[f.t] # NoV /\ f.v.o = L1[f.t].o /\ f.v.n = f.t
              /\ \A f \in fL : f.v.n \in Node /\ L1[f.v.n] # NoV /\ f.v.o = L1[f.v.n].o
+\* C01 / C06: no holder ever ends up with the same component twice in one slice (at any moment, also after a failed attempt
+\* was repeated)
+M_C06_SliceOnce == \A f, g \in fL : (f.h = g.h /\ f.v.n = g.v.n) => f.i = g.i
 M_C01_PublishedStable ==
   [][E.ev # "scenario" => \A n \in Node : L1[n] # NoV => L1'[n] = L1[n]]_vars
 M_C04_NoHalfBuilt == lookupOK   \* also C01: a lookup by name returns the published object
